@@ -1013,13 +1013,11 @@ impl BodyPredicate {
         match self {
             BodyPredicate::Positive(atom) | BodyPredicate::Negated(atom) => atom.variables(),
             BodyPredicate::Comparison(left, _, right) => {
-                let mut vars = HashSet::new();
-                if let Term::Variable(v) = left {
-                    vars.insert(v.clone());
-                }
-                if let Term::Variable(v) = right {
-                    vars.insert(v.clone());
-                }
+                // Include variables nested in arithmetic / function-call operands
+                // (`X - W >= 1` mentions X and W): callers such as SIP rewriting decide
+                // from this set whether a comparison can be evaluated over an atom's variables.
+                let mut vars = left.variables();
+                vars.extend(right.variables());
                 vars
             }
             BodyPredicate::HnswNearest {
